@@ -23,6 +23,8 @@ Definition common_header_parse (p : parser) : res (mrt_hdr * parser) :=
   let* (mm, p) := (if ty =? 17
                    then let* (m, p) := parse_be 4 p in if len <? 4 then Panic else Ok ((m, len - 4), p)
                    else Ok ((0, len), p)) in
+  (* parse_parser(length): short input when the record is longer than what is left (compared in N: the length is a u32) *)
+  if N.of_nat (remaining p) <? snd mm then Err else
   let* (mp, p) := parse_parser (N.to_nat (snd mm)) p in
   Ok (mkHdr ts ty sub len (fst mm) mp, p).
 
@@ -87,6 +89,9 @@ Definition table_of (h : mrt_hdr) : res (option (bool * rib_hdr)) :=
 
 (* an entry as RibEntryIterator yields it: (is_v6, peer index, peer, prefix, raw attributes) *)
 Definition rib_item := (bool * N * peer * prefix * bytes)%type.
+
+(* an entry without the resolved peer and the family: what the per-table and the parallel iterators yield *)
+Definition strip (it : rib_item) : prefix * N * bytes := let '(_, idx, _, pfx, attrs) := it in (pfx, idx, attrs).
 
 (* RibEntryIterator: [cur] is current_table / current_afisafi *)
 Fixpoint rib_iter (fuel : nat) (peers : list peer) (p : parser) (cur : option (bool * prefix * parser)) : res (list rib_item) :=
@@ -241,3 +246,38 @@ Record table_spec := mkTab { t_ts : N; t_v6 : bool; t_seq : N; t_pfx : prefix; t
 Definition enc_table (t : table_spec) : bytes :=
   enc_rec (t_ts t) 13 (if t_v6 t then 4 else 2)
     (be 4 (t_seq t) ++ compose_prefix (t_pfx t) ++ be 2 (N.of_nat (length (t_entries t))) ++ flat_map enc_entry (t_entries t)).
+
+(* BGP4MP records *)
+Definition mp_head_enc (as4 : bool) (pa la ifc afi : N) (a b : bytes) : bytes :=
+  (if as4 then be 4 pa ++ be 4 la else be 2 pa ++ be 2 la) ++ be 2 ifc ++ be 2 afi ++ a ++ b.
+Definition enc_mp_body (it : mp_item) : bytes :=
+  match it with
+  | MpState as4 pa la ifc afi a b o n => mp_head_enc as4 pa la ifc afi a b ++ be 2 o ++ be 2 n
+  | MpMsg as4 pa la ifc afi a b m => mp_head_enc as4 pa la ifc afi a b ++ m
+  end.
+Definition mp_sub (it : mp_item) : N :=
+  match it with
+  | MpState as4 _ _ _ _ _ _ _ _ => if as4 then 5 else 0
+  | MpMsg as4 _ _ _ _ _ _ _ => if as4 then 4 else 1
+  end.
+Definition mp_item_wf (it : mp_item) : Prop :=
+  let chk (as4 : bool) (pa la ifc afi : N) (a b : bytes) :=
+    pa < (if as4 then 2 ^ 32 else 65536) /\ la < (if as4 then 2 ^ 32 else 65536) /\ ifc < 65536 /\
+    ((afi = 1 /\ length a = 4%nat /\ length b = 4%nat) \/ (afi = 2 /\ length a = 16%nat /\ length b = 16%nat)) in
+  match it with
+  | MpState as4 pa la ifc afi a b o n => chk as4 pa la ifc afi a b /\ o < 65536 /\ n < 65536
+  | MpMsg as4 pa la ifc afi a b m => chk as4 pa la ifc afi a b
+  end.
+
+(* a record: timestamp, Some microseconds for BGP4MP_ET, the item *)
+Definition mp_rec := (N * option N * mp_item)%type.
+Definition enc_mp (r : mp_rec) : bytes :=
+  let '(ts, et, it) := r in
+  match et with
+  | None => enc_rec ts 16 (mp_sub it) (enc_mp_body it)
+  | Some mus => enc_rec_et ts (mp_sub it) mus (enc_mp_body it)
+  end.
+Definition mp_rec_wf (r : mp_rec) : Prop :=
+  let '(ts, et, it) := r in
+  ts < 2 ^ 32 /\ mp_item_wf it /\ N.of_nat (4 + length (enc_mp_body it)) < 2 ^ 32 /\
+  match et with Some mus => mus < 2 ^ 32 | None => True end.
